@@ -6,7 +6,7 @@ import numpy as np
 import common
 import corpus
 from common import REPO, GEN
-from props import c01, c02, c03, c08
+from props import c01, c02, c03, c08, c10
 
 import pyir
 import options as tro
@@ -16,7 +16,7 @@ TWOPI = 2 * np.pi
 
 
 def translate(chk):
-    for m in (c02, c03, c08):
+    for m in (c02, c03, c08, c10):
         m.translate(chk)
     try:
         text, d = tro.emit(REPO)
@@ -191,6 +191,8 @@ def run(chk):
     chk.coq()
     G = {g.name: g for g in corpus.get(tier=chk.tier) if g.ok}
     n = 0
+    # the two ends of a region are treated alike by the non-orthogonal blending (a region's start is its mirror image's end)
+    n += c10.check_range_parameters(chk, prefix="mirror:")
     stats = {}
 
     def st(k):
